@@ -36,6 +36,8 @@ def run(ctx):
     ctx.step(c03.handler_rules, ctx, "C20.lr-writes")
     ctx.step(c16.noexcept_rule, ctx, "C20.noexcept")
     ctx.step(noexcept_user, ctx)
+    ctx.step(cow_user_calls, ctx)
+    ctx.step(rollback_source, ctx)
     ctx.step(c06.capture, ctx, "C20.deferred")
     ctx.step(c06.exception_identity, ctx, "C20.deferred-exc")
     ctx.step(c16.unlocked, ctx, "C20.dd-unlocked")
@@ -82,6 +84,78 @@ def user_calls(ctx):
 
 def noexcept_user(ctx):
     common.noexcept_user(ctx, "C20.noexcept-user", FILES, floor=20)
+
+
+def cow_user_calls(ctx, rid="C20.cow-cancel"):
+    """a cow_guarded write handle publishes its private copy when it is destroyed - also when it is destroyed by
+    unwinding.  User code that runs while an operation of cow_guarded holds such a handle therefore runs inside a try
+    block whose handler cancels the handle: otherwise a functor that throws half-way gets its half-modified copy
+    published to every reader."""
+    ctx.rule(rid, "cow_guarded runs user code under a write handle only where a throw cancels the handle", floor=0)
+    COW = "gmlc::libguarded::cow_guarded"
+    for f in ctx.fb.functions(rec=COW):
+        handles = []
+        for st in f.stmts.values():
+            if st["k"] == "DeclStmt" and f.pos_of(st):
+                for d in st["decls"]:
+                    t = d.get("type", "")
+                    if not d.get("ref") and "cow_guarded<" in t and ("::deleter" in t or t.endswith("::handle")):
+                        handles.append((st, d))
+        if not handles:
+            continue
+        for c in f.stmts.values():
+            if c["k"] not in CALLS or not common.is_user_call(f, c) or f.pos_of(c) is None:
+                continue
+            anc = list(f.ancestors(c))
+            ids = {a["id"] for a in anc}
+            for st, d in handles:
+                par = f.par(st)
+                if par is None or par["id"] not in ids or not f.dominates(tuple(f.pos_of(st)), tuple(f.pos_of(c))):
+                    continue
+                ok = False
+                for a in anc:
+                    if a["k"] == "CXXTryStmt" and any(x["id"] == c["id"] for x in f.descendants(f.s(a["try"]))):
+                        for hid in a["handlers"]:
+                            h = f.s(hid)
+                            if h.get("all") and any(x["k"] == "CXXMemberCallExpr" and (x.get("callee") or {}).get("name") == "cancel"
+                                                    for x in f.descendants(f.s(h["body"]))):
+                                ok = True
+                ctx.ob(rid, ok, f.loc(c), "%s cancels its write handle when the user code throws" % f.name, "" if ok else
+                       "user code runs while the write handle '%s' is alive and no catch(...) cancels it: the handle's destructor "
+                       "commits the partially modified copy during unwinding" % d["name"], fn=f.label, inst=f.qname)
+
+
+def rollback_source(ctx, rid="C20.rollback-source"):
+    """a handler that restores the payload after a failed modification restores what the payload was WHEN THE CRITICAL
+    SECTION BEGAN: the saved value is taken from m_obj with the exclusive lock already held.  A snapshot taken before the
+    lock (load() under the shared lock, then lock again) is stale by the time it is written back - it wipes every update
+    another writer made in between."""
+    from ..guards import field_refs
+    ctx.rule(rid, "a roll-back restores a value that was saved inside the same exclusive section", floor=0)
+    for cls in REPLACERS:
+        for f in ctx.fb.functions(rec=cls):
+            la = None
+            for ts in [s for s in f.stmts.values() if s["k"] == "CXXTryStmt"]:
+                for hid in ts["handlers"]:
+                    h = f.s(hid)
+                    for d in f.descendants(f.s(h["body"])):
+                        if not (d["k"] == "CXXOperatorCallExpr" and d.get("op") == "=" and len(d["args"]) == 2 and
+                                path(f, f.s(d["args"][0])) == "this.m_obj"):
+                            continue
+                        src = unwrap(f, f.s(d["args"][1]))
+                        while src is not None and src["k"] in CALLS and callee_fq(src) in ("std::move", "std::forward"):
+                            src = unwrap(f, f.s(src["args"][0]))
+                        if src is None or src["k"] != "DeclRefExpr" or src["d"].get("k") != "local":
+                            continue
+                        decl = [s for s in f.stmts.values() if s["k"] == "DeclStmt" and any(x["id"] == src["d"]["id"] for x in s["decls"])]
+                        if not decl or f.pos_of(decl[0]) is None:
+                            continue
+                        la = la or ctx.eng.locks(f)
+                        ok = la.holds(f.pos_of(decl[0]), "this.m_mutex", "X")
+                        ctx.ob(rid, ok, f.loc(d), "%s restores a value saved under the exclusive lock" % f.name, "" if ok else
+                               "'%s' was saved at %s, before m_mutex was taken exclusively: restoring it overwrites whatever other "
+                               "writers stored between the snapshot and this critical section" % (src["d"]["name"], f.loc(decl[0])),
+                               fn=f.label, inst=f.qname)
 
 
 REPLACERS = ["gmlc::libguarded::guarded", "gmlc::libguarded::guarded_opt", "gmlc::libguarded::ordered_guarded",
